@@ -2,7 +2,7 @@
    C16_same_reference_same_observations (which rests on tbl_agrees) two well-formed descriptors with the same
    reference are observationally equal: same iteration, same length, same element at every integer index. *)
 From Coq Require Import String List Arith ZArith Sorted.
-Require Import LD.Base LD.PySlice LD.Pipeline LD.Build LD.BuildExtra LD.Ref LD.Laws LD.SplitProofs.
+Require Import LD.Base LD.PySlice LD.Pipeline LD.Build LD.BuildExtra LD.Ref LD.Laws LD.Laws2 LD.SplitProofs.
 Import ListNotations.
 
 Theorem C16_same_reference_same_observations : forall d1 d2 t,
@@ -64,3 +64,40 @@ Print Assumptions C16_map_batch.
 Print Assumptions C16_map_cache.
 Print Assumptions C16_tile.
 Print Assumptions C16_filter_select.
+
+(* ---- round 14 (Laws2.v): filters compose, filter distributes over concatenation, nested concatenations flatten,
+   arbitrary integer-array selections compose, the identity selection ---- *)
+Theorem C16_filter_filter : forall q p d,
+  tbl (DFilter p (DFilter q d)) = tbl (DFilter (and_then q p) d).
+Proof. exact law_filter_filter. Qed.
+Theorem C16_filter_concat : forall p l, tbl (DFilter p (DConcat l)) = tbl (DConcat (map (DFilter p) l)).
+Proof. exact law_filter_concat. Qed.
+Theorem C16_concat_single : forall d, tbl (DConcat [d]) = tbl d.
+Proof. exact law_concat_single. Qed.
+Theorem C16_concat_flatten : forall l1 l2 l3,
+  tbl (DConcat (l1 ++ DConcat l2 :: l3)) = tbl (DConcat (l1 ++ l2 ++ l3)).
+Proof. exact law_concat_flatten. Qed.
+Theorem C16_slice_slice : forall i j jj d t1,
+  tbl (DSlice j d) = Some t1 -> select i j = Some jj ->
+  tbl (DSlice i (DSlice j d)) = tbl (DSlice jj d).
+Proof. exact law_slice_slice. Qed.
+Theorem C16_slice_slice_range : forall i j d t1,
+  tbl (DSlice j d) = Some t1 -> select i j = None -> tbl (DSlice i (DSlice j d)) = None.
+Proof. exact law_slice_slice_range. Qed.
+Theorem C16_slice_all : forall d t, ixok d = true -> tbl d = Some t ->
+  tbl (DSlice (seq 0 (length t)) d) = Some t.
+Proof. exact law_slice_all. Qed.
+Print Assumptions C16_filter_filter.
+Print Assumptions C16_filter_concat.
+Print Assumptions C16_concat_single.
+Print Assumptions C16_concat_flatten.
+Print Assumptions C16_slice_slice.
+Print Assumptions C16_slice_slice_range.
+Print Assumptions C16_slice_all.
+
+(* non-vacuity: the premises of the selection laws are met by a concrete pipeline *)
+Example C16_slice_slice_inhabited :
+  tbl (DSlice [2; 0; 2]%nat (DList [VInt 5; VInt 6; VInt 7])) <> None /\ select [1; 1; 0]%nat [2; 0; 2]%nat = Some [0; 0; 2]%nat
+  /\ tbl (DSlice [1; 1; 0]%nat (DSlice [2; 0; 2]%nat (DList [VInt 5; VInt 6; VInt 7])))
+     = Some (nokey [VInt 5; VInt 5; VInt 7]).
+Proof. vm_compute. repeat split; discriminate. Qed.
